@@ -94,7 +94,8 @@ const MemberDeclarationSymbol* TagDeclarationSymbol::member(const Identifier* na
             continue;
         auto fldDecl = membDecl->asFieldDeclaration();
         if (fldDecl->isAnonymousStructureOrUnion()) {
-            PSY_ASSERT_2(fldDecl->type()->kind() == TypeKind::Tag, continue);
+            if (fldDecl->type()->kind() != TypeKind::Tag)
+                continue;
             auto tagTyDecl = fldDecl->type()->asTagType()->declaration();
             if (!tagTyDecl)
                 continue;
